@@ -5,6 +5,8 @@ From XcpProofs Require Import BackupProofs.
 From XcpModel Require Import Extracted.
 From XcpProofs Require Import ExtractedOk.
 From Coq Require Import String.
+From XcpProofs Require Import PinnedSource.
+From XcpPins Require Import Pin_backup_get_backup_path Pin_backup_has_backup Pin_backup_is_num_backup Pin_operations_new.
 
 (* the number chosen exceeds every backup number present for that name, and
    the chosen backup name does not exist yet (so rename never replaces one) *)
@@ -116,6 +118,17 @@ Theorem C09_src_needs_backup_table : forall mode ex base entries, mode < 3 ->
   needs_backup mode ex base entries = x_needs_backup mode ex (has_backup base entries).
 Proof. exact x_needs_backup_ok. Qed.
 
+(* ---- the glue functions this property's hand-written model mirrors are, token for token, the ones it was
+   validated against (an edit re-opens the obligation; harness/repin.py re-pins after re-validation) ---- *)
+Theorem C09_src_pin_backup_get_backup_path : pin_unchanged name_backup_get_backup_path.
+Proof. exact pin_backup_get_backup_path. Qed.
+Theorem C09_src_pin_backup_has_backup : pin_unchanged name_backup_has_backup.
+Proof. exact pin_backup_has_backup. Qed.
+Theorem C09_src_pin_backup_is_num_backup : pin_unchanged name_backup_is_num_backup.
+Proof. exact pin_backup_is_num_backup. Qed.
+Theorem C09_src_pin_operations_new : pin_unchanged name_operations_new.
+Proof. exact pin_operations_new. Qed.
+
 Print Assumptions C09_backup_number_fresh.
 Print Assumptions C09_backup_names_exact.
 Print Assumptions C09_overwrite_preserves.
@@ -126,3 +139,7 @@ Print Assumptions C09_no_overflow_below_max.
 Print Assumptions C09_src_next_number.
 Print Assumptions C09_src_suffix_pattern.
 Print Assumptions C09_src_needs_backup_table.
+Print Assumptions C09_src_pin_backup_get_backup_path.
+Print Assumptions C09_src_pin_backup_has_backup.
+Print Assumptions C09_src_pin_backup_is_num_backup.
+Print Assumptions C09_src_pin_operations_new.
